@@ -70,6 +70,10 @@ TABLE = {
             'Every attribute of every re-imported Obs / list / array / Corr / nested dict equals the original for all values, fluctuations, replica means and gradients; structure, tags, prange, None pattern, '
             'idl form and flags are compared concretely; every emitted document validates against the shipped schema (one instantiation, justified by a scan of the schema).',
             'rapidjson, gzip, file system replaced by contracts / in-memory stand-ins; sqlite, csv text and pickle outside; NaN data outside.'),
+    'C12': (True, 'symbolic execution of the dobs / pobs writers and readers (real lxml on the concrete text) with a tag-double text channel for the symbolic numbers; zero tests are symbolic branches; SMT equality after the round trip',
+            'Every central value, chain, configuration number, fluctuation, replica mean and covariance gradient of every re-imported observable equals the original for all values (lists of observables on different '
+            'configuration subsets / replicas / ensembles, covariance inputs), through the string API and in-memory files with gz on/off and all separator_insertion modes; the zero patterns of the written numbers are explored as paths.',
+            'printf/strtod replaced by the contract "identity on doubles" (cov/grad are printed with 15 digits only); known finding: samples that are written as exactly zero are lost on import.'),
 }
 
 NOT_YET = 'check not built yet in this session (work in progress; see DESIGN.md section 4 for the plan)'
